@@ -2,6 +2,7 @@ package c04
 
 import (
 	"math/rand"
+	"strings"
 	"time"
 
 	"kapverif/rt"
@@ -254,6 +255,30 @@ func Run(r *rt.Run) error {
 		x.run(kase{n: n, entries: small2, runs: [][]step{seqRun(rnd.Perm(len(small2)), 'E')}, family: "builtin"})
 	}
 
+	// ---- B2: the conversion functions over the string classes of their grammars and over every argument type ----
+	convVals := []V{}
+	for _, str := range convStrings {
+		convVals = append(convVals, Str(str))
+	}
+	convVals = append(convVals, Int(-12), Int(0), Int(1), Int(2), Int(1000), Flt(-1.5), Flt(-0.375), Flt(0), Flt(0.125), Flt(0.5), Flt(1), Flt(2.5), Flt(100),
+		Bool(true), Bool(false), Dur(0), Dur(1500*time.Millisecond), Dur(90*time.Second), Dur(time.Hour), Dur(-7*24*time.Hour), Dur(36*time.Hour), Tim(61), Missing)
+	conv := scopes1("a", convVals)
+	for _, n := range []*N{Call("int", a), Call("float", a), Call("bool", a), Call("string", a), Call("duration", a),
+		Call("duration", a, Lit(Dur(time.Second))), Call("duration", a, Lit(Dur(time.Millisecond))), Call("duration", a, Lit(Dur(-90*time.Minute))),
+		Call("string", Call("duration", a, Lit(Dur(time.Second)))), Call("int", Call("string", a)), Call("float", Call("string", a)), Call("string", Call("float", a))} {
+		runs, _ := longRuns(rnd, len(conv))
+		x.run(kase{n: n, entries: conv, runs: runs, pol: polTyped, family: "conversion"})
+	}
+	for _, str := range convStrings {
+		if strings.ContainsAny(str, "\t\n'\\") {
+			continue // no literal form
+		}
+		for _, f := range []string{"int", "float", "bool"} {
+			x.run(kase{n: Call(f, Lit(Str(str))), entries: []entry{scopeEntry()}, runs: [][]step{{{0, 'E', 0}, {0, 'T', 0}}, {{0, 0, 0}}}, pol: polTyped, family: "conversion"})
+		}
+		x.run(kase{n: Call("duration", Lit(Str(str)), Lit(Dur(time.Second))), entries: []entry{scopeEntry()}, runs: [][]step{{{0, 'E', 0}}, {{0, 'D', 0}}}, family: "conversion"})
+	}
+
 	// ---- C: every history of scope typings on one compiled expression (the specialisation cache) ----
 	histOps := []string{"+", "-", "*", "/", "%", "<", "==", "AND", "=~"}
 	t66 := scopes2("a", "b", typ6, typ6, false)
@@ -453,6 +478,25 @@ func Run(r *rt.Run) error {
 	return nil
 }
 
+// convStrings are the classes of the conversion grammars: int(string) is decimal only (strconv.ParseInt base 10), float(string) is Go's
+// floating-point literal syntax (strconv.ParseFloat), bool(string) is strconv.ParseBool's literal set, duration(string, unit) is
+// influxql.ParseDuration.
+var convStrings = []string{
+	// integers: plain, signed, leading zeros, base prefixes, underscores, blanks, exponent/fraction, empty, int64 boundaries
+	"0", "7", "42", "-7", "+5", "010", "-0012", "+007", "00", "017", "0x1F", "0X1f", "0b101", "0o17", "1_000", "1__0", "_1", "1_", " 5", "5 ", "\t5", "5\n",
+	"1e3", "2.5", "", "-", "+", "--5", "+-5", "5-", "12a", "a12", "999999999", "1000000000", "9223372036854775807", "9223372036854775808",
+	"-9223372036854775808", "-9223372036854775809", "99999999999999999999", "0000000000000000000005",
+	// floats: fraction, exponent, hex, underscores, specials, range
+	"-1.5", "+0.25", ".5", "5.", ".", "1E3", "1e+2", "1e-2", "2.5e1", "e3", "1e", "1e+", "1.2.3", "0.1", "0.125", "1e400", "-1e400", "1e-400", "1e309",
+	"0x1p-2", "0X1P+1", "0x1.8p1", "0x1", "0x.8p0", "0x1p", "-0x1p-1", "0x1e2", "0x1p2000", "1_0.5", "1_.5", "1e3_0", "0x_1p0", "0x1_0p0",
+	"inf", "Inf", "+INF", "-infinity", "Infinity", "infinit", "infi", "nan", "NaN", "+nan", "-nan", " 1", "1 ", "1f", "1p2", "1,5", "-0",
+	// booleans
+	"1", "t", "T", "TRUE", "true", "True", "f", "F", "FALSE", "false", "False", "tRUE", "yes", "no", "on", " true", "true ", "TrUe", "2",
+	// durations
+	"1s", "-5s", "10ms", "1h30m", "1w", "2w", "2d", "5u", "5µ", "5us", "7ns", "5n", "s", "-s", "1.5s", "1s ", " 1s", "+1s", "1m5", "1ms2s", "01s", "1S", "1y",
+	"9223372036854775807ns", "9223372036854775808ns", "106752d", "1_0s", "1hh", "1h-5m", "--1s", "0s", "00ms", "1 s", "0u", "9999w9999w",
+}
+
 // gen draws random ASTs over the model's alphabet.
 type gen struct{ r *rand.Rand }
 
@@ -462,6 +506,8 @@ func (g *gen) leaf() *N {
 		return Ref([]string{"a", "b", "c"}[g.r.Intn(3)])
 	case x == 5:
 		return Lit(Rex([]string{"a", "^a", "b$", "^$"}[g.r.Intn(4)]))
+	case x == 6 && g.r.Intn(2) == 0:
+		return Lit(Str(convLits[g.r.Intn(len(convLits))]))
 	default:
 		for {
 			v := domain[g.r.Intn(len(domain))]
@@ -471,6 +517,8 @@ func (g *gen) leaf() *N {
 		}
 	}
 }
+
+var convLits = []string{"010", "-0012", "+5", "0x1F", "1_000", "2.5", "1e3", " 5", "T", "yes", "1h30m", "10ms", "0x1p-2", "inf", ".5"}
 
 var fun1 = []string{"int", "float", "bool", "string", "abs", "floor", "ceil", "trunc", "strLength", "strToUpper", "strTrimSpace", "isPresent", "spread", "sigma", "duration"}
 var fun2 = []string{"min", "max", "mod", "strContains", "strHasPrefix", "strIndex", "strTrimSuffix", "strCount", "strTrim", "strIndexAny", "duration"}
